@@ -1,8 +1,9 @@
 ---------------------------- MODULE TrIBBListen ----------------------------
-(* Trace validation of recorded schedules of the real ibb.Listener (Accept, Expect, Close) against *)
-(* the serve loop handling real open requests (harness/cmd/ibb, mode "listen") against IBBListen.  *)
-(* Batch scheme of TrIBB / TrCorrelate.  Registration, wake-up, lookup outcome and hand-over are    *)
-(* silent; a `stuck` event (every goroutine blocked) is judged here: TrStuck.                      *)
+(* Trace validation of recorded schedules of the real ibb.Listener (Handler.Listen, Accept, Expect, *)
+(* Close) against the serve loops handling real open requests (harness/cmd/ibb, mode "listen")      *)
+(* against IBBListen.  Batch scheme of TrIBB / TrCorrelate.  Registration, wake-up, lookup outcome, *)
+(* hand-over and the moment at which a Close / Listen takes effect are silent; a `stuck` event      *)
+(* (every goroutine blocked) is judged here: TrStuck.                                               *)
 EXTENDS IBBListen, Json
 
 Trace == ndJsonDeserialize("trace.ndjson")
@@ -14,57 +15,65 @@ IsEv(e) == l < EndOf(t0) /\ Trace[l].ev = e /\ l' = l + 1
 Ev == Trace[l]
 NoKey == [c \in {} |-> None]
 
-TInit == t0 \in Starts /\ l = t0 /\ Init /\ nenv = 0
+(* the reset line says which sessions have a listener at the start *)
+TInit == t0 \in Starts /\ l = t0 /\ lst = [s \in Lsn |-> Trace[t0].lst[s]] /\ InitRest /\ nenv = 0
 
-TrReset == l = t0 /\ IsEv("reset") /\ lst = (IF Ev.listen THEN "open" ELSE "none") /\ UNCHANGED vars
+TrReset == l = t0 /\ IsEv("reset") /\ UNCHANGED vars
 
-TrExpectCall == IsEv("expect_call") /\ Ev.c \in XCalls /\ ExpectCall(Ev.c, Ev.key)
+TrExpectCall == IsEv("expect_call") /\ Ev.c \in XCalls /\ Ev.l \in Lsn /\ ExpectCall(Ev.c, Ev.l, Ev.key)
 (* the session returned is one of the key asked for: the one this call was handed *)
 TrExpectRet ==
   /\ IsEv("expect_ret") /\ Ev.c \in XCalls
   /\ (Ev.out = "stream" => (Ev.key = key[Ev.c] /\ gotS[Ev.c] # None /\ Ev.key = key[gotS[Ev.c]]))
   /\ ExpectRet(Ev.c, Ev.out)
-TrAcceptCall == IsEv("accept_call") /\ AcceptCall(Ev.c)
+TrAcceptCall == IsEv("accept_call") /\ Ev.l \in Lsn /\ AcceptCall(Ev.c, Ev.l)
 TrAcceptRet ==
   /\ IsEv("accept_ret") /\ Ev.c \in ACalls
   /\ (Ev.out = "stream" => (gotS[Ev.c] # None /\ Ev.key = key[gotS[Ev.c]]))
   /\ AcceptRet(Ev.c, Ev.out)
 TrCancel == IsEv("cancel") /\ Ev.c \in XCalls \cup Reqs /\ Cancel(Ev.c)
-TrCloseCall == IsEv("lclose_call") /\ CloseCall
-TrCloseRet == IsEv("lclose_ret") /\ CloseRet
-TrReqCall == IsEv("req_call") /\ Ev.c \in Reqs /\ ReqCall(Ev.c, Ev.key)
-TrWire == IsEv("wire") /\ Ev.c \in Reqs /\ Ev.to = "b" /\ ReqWire(Ev.c)
-TrDeliver == IsEv("deliver") /\ Ev.e = "b" /\ Ev.c \in Reqs /\ Deliver(Ev.c)
-TrReply == IsEv("reply") /\ Ev.to = "a" /\ Ev.c \in Reqs /\ Reply(Ev.c, IF Ev.res = "result" THEN "result" ELSE "error")
+TrCloseCall == IsEv("lclose_call") /\ Ev.c \in KCalls /\ Ev.l \in Lsn /\ TableCall(Ev.c, Ev.l)
+TrCloseRet == IsEv("lclose_ret") /\ Ev.c \in KCalls /\ TableRet(Ev.c)
+TrListenCall == IsEv("listen_call") /\ Ev.c \in LCalls /\ Ev.l \in Lsn /\ TableCall(Ev.c, Ev.l)
+(* Listen returns a listener; `same`: it is the one an earlier Listen of that session returned *)
+TrListenRet == IsEv("listen_ret") /\ Ev.c \in LCalls /\ Ev.ok /\ TableRet(Ev.c)
+TrReqCall == IsEv("req_call") /\ Ev.c \in Reqs /\ Ev.l \in Lsn /\ ReqCall(Ev.c, Ev.l, Ev.key)
+TrWire == IsEv("wire") /\ Ev.c \in Reqs /\ Ev.to = lof[Ev.c] /\ ReqWire(Ev.c)
+TrDeliver == IsEv("deliver") /\ Ev.c \in Reqs /\ Ev.e = lof[Ev.c] /\ Deliver(Ev.c)
+TrReply == IsEv("reply") /\ Ev.c \in Reqs /\ Ev.from = lof[Ev.c] /\ Reply(Ev.c, IF Ev.res = "result" THEN "result" ELSE "error")
 TrReqRet == IsEv("req_ret") /\ Ev.c \in Reqs /\ ReqRet(Ev.c, Ev.out)
 TrNoReq == IsEv("hook") /\ UNCHANGED vars
 
-Pending == {c \in Calls : pc[c] \notin {"idle", "done"}} \cup {r \in Reqs : cst[r] = "called"}
+Pending == {c \in Calls : pc[c] \notin {"idle", "done"}} \cup {r \in Reqs : cst[r] = "called"} \cup TablePending
 
-(* Every goroutine is blocked.  The serve loop may only be waiting for an acceptor; a call may only wait *)
-(* for something the application or the peer has not supplied yet.  (An Expect call whose context is     *)
-(* done may still be held up while the serve loop waits for an acceptor: the serve loop holds the lock   *)
-(* of the expectation table during that wait.  Tolerated - the wait ends with the next Accept.)          *)
+(* Every goroutine is blocked.  A serve loop may only be waiting for an acceptor; a call may only wait   *)
+(* for something the application or the peer has not supplied yet; a Close or Listen call may not wait  *)
+(* at all.  (An Expect call whose context is done may still be held up while the serve loop waits for   *)
+(* an acceptor, in implementations that keep the expectation table locked during that wait.  Tolerated  *)
+(* - the wait ends with the next Accept.)                                                               *)
 TrStuck ==
   /\ IsEv("stuck")
-  /\ ~CanRefuse /\ ~CanDrop /\ ~CanReply /\ lst # "closing"
-  /\ \A x \in XCalls : ~CanHandX(x)
-  /\ \A a \in ACalls : ~CanHandA(a)
-  /\ (IF hand = None THEN q = <<>> /\ ~Ev.serving ELSE WaitingForAcceptor /\ Ev.serving)
+  /\ TablePending = {}
+  /\ \A s \in Lsn :
+       /\ ~CanRefuse(s) /\ ~CanDrop(s) /\ ~CanReply(s)
+       /\ \A x \in XCalls : ~CanHandX(s, x)
+       /\ \A a \in ACalls : ~CanHandA(s, a)
+       /\ (IF hand[s] = None THEN q[s] = <<>> /\ ~Ev.serving[s] ELSE WaitingForAcceptor(s) /\ Ev.serving[s])
   /\ \A i \in 1..Len(Ev.blocked) : LET b == Ev.blocked[i] IN
-       CASE b.in = "expect" -> b.c \in XCalls /\ pc[b.c] \in {"called", "reg"} /\ (b.c \in ctxc \cup sup => WaitingForAcceptor)
-         [] b.in = "accept" -> b.c \in ACalls /\ pc[b.c] = "called" /\ hand = None /\ lst = "open"
-         [] b.in \in {"open", "ping"} -> b.c \in Reqs /\ cst[b.c] = "called" /\ rep[b.c] = None /\ b.c \notin ctxc /\ WaitingForAcceptor
+       CASE b.in = "expect" -> b.c \in XCalls /\ pc[b.c] \in {"called", "reg"} /\ (b.c \in ctxc \cup sup => WaitingForAcceptor(lof[b.c]))
+         [] b.in = "accept" -> b.c \in ACalls /\ pc[b.c] = "called" /\ hand[lof[b.c]] = None /\ lst[lof[b.c]] = "open"
+         [] b.in \in {"open", "ping"} -> b.c \in Reqs /\ cst[b.c] = "called" /\ rep[b.c] = None /\ b.c \notin ctxc /\ WaitingForAcceptor(lof[b.c])
          [] OTHER -> FALSE
   /\ Pending \subseteq {Ev.blocked[i].c : i \in 1..Len(Ev.blocked)}
   /\ UNCHANGED vars
 
-TrEnd == IsEv("end") /\ Pending = {} /\ hand = None /\ q = <<>> /\ lst # "closing" /\ UNCHANGED vars
+TrEnd == IsEv("end") /\ Pending = {} /\ (\A s \in Lsn : hand[s] = None /\ q[s] = <<>>) /\ UNCHANGED vars
 
 Silent ==
-  /\ \/ \E x \in XCalls : Register(x) \/ Wake(x) \/ HandToExpect(x)
-     \/ \E a \in ACalls : HandToAccept(a)
-     \/ Refuse \/ ToAcc \/ DropClosed
+  /\ \/ \E x \in XCalls : Register(x) \/ Wake(x) \/ \E s \in Lsn : HandToExpect(s, x)
+     \/ \E a \in ACalls : \E s \in Lsn : HandToAccept(s, a)
+     \/ \E s \in Lsn : Refuse(s) \/ ToAcc(s) \/ DropClosed(s)
+     \/ \E c \in TCalls : TableEffect(c)
   /\ UNCHANGED l
 
 Inv == C06_TakeOver /\ C06_NoStaleEntry /\ C06_SessionOnce /\ C06_Outcome /\ C06_ExpectGetsItsSession /\ C15_OpenIffAccepted
@@ -72,6 +81,7 @@ Inv == C06_TakeOver /\ C06_NoStaleEntry /\ C06_SessionOnce /\ C06_Outcome /\ C06
 TNext ==
   /\ l < EndOf(t0)
   /\ \/ TrReset \/ TrExpectCall \/ TrExpectRet \/ TrAcceptCall \/ TrAcceptRet \/ TrCancel \/ TrCloseCall \/ TrCloseRet
+     \/ TrListenCall \/ TrListenRet
      \/ TrReqCall \/ TrWire \/ TrDeliver \/ TrReply \/ TrReqRet \/ TrNoReq \/ TrStuck \/ TrEnd \/ Silent
   /\ UNCHANGED <<t0, nenv>>
   /\ Inv'
